@@ -1,0 +1,1 @@
+//! Verification hooks for the behaviour-level gossipsub checks (only with `--cfg libp2p_verif`).
